@@ -2,7 +2,7 @@
    plus non-vacuity examples (concrete runs of the model in which each clause's hypotheses hold). *)
 From Coq Require Import List NArith ZArith Bool Lia.
 From BLB Require Import Gen.Consts Store.Bytes Store.MapProofs Store.Model Store.Proofs Store.WF Store.Conflict Store.Mono
-     Store.Steps Store.Monotone Store.Readd C09.Model.
+     Store.Steps Store.Monotone Store.Readd Store.FaultModel Store.Faults C09.Model.
 Import ListNotations.
 
 Lemma reachable_wf_lemma : forall m ops, wf (run (init m) ops).
@@ -185,6 +185,33 @@ Proof.
   destruct (restart_readd s (reachable_wf_lemma m ops) l s' ND AT H) as (R & _ & D & V). auto.
 Qed.
 
+Lemma failed_install_lemma :
+  forall m,
+    (forall fops, Forall fop_ok fops -> exists ops, frun (init m) fops = run (init m) ops) /\
+    (forall s t d off orc fe, fault_code fe ->
+        (reaches_open s t = false /\ create_f s t d off orc (Some fe) = create s t d off orc) \/
+        (reaches_open s t = true /\ create_f s t d off orc (Some fe) = (s, fe))) /\
+    (forall s t srcs v orc fe, fault_code fe ->
+        (exists srcs', pull_tract_f s t srcs v orc (Some fe) = pull_tract s t srcs' v orc /\
+                       length srcs' = length srcs /\
+                       forall r, In r srcs' -> In r srcs \/ r = (fe, [])) /\
+        (snd (pull_tract_f s t srcs v orc (Some fe)) = E_OK ->
+         (srcs = [] /\ fst (pull_tract_f s t srcs v orc (Some fe)) = s) \/
+         exists re data, In (re, data) srcs /\ ok_reply re /\
+                         cur (fst (pull_tract_f s t srcs v orc (Some fe))) t =
+                         Some (mkfile (Some v) (rle_write [] data 0%N)))).
+Proof.
+  intros m. split; [intros; now apply faults_add_nothing|]. split; [intros; now apply create_f_cases|].
+  intros s t srcs v orc fe [F NA].
+  destruct (pull_tract_f_is_pull s t srcs v orc fe F) as (srcs' & E & L & I).
+  split; [exists srcs'; auto|].
+  rewrite E. unfold pull_tract. destruct (pull_all s t srcs' v orc E_OK) as [s' e] eqn:P. simpl. intros ->.
+  destruct (pull_installs_complete_copy _ _ _ _ _ _ _ P) as [[-> ->]|(re & data & Hin & Hok & Hc)].
+  - left. destruct srcs; [auto|discriminate].
+  - right. exists re, data. destruct (I _ Hin) as [H|H]; [auto|].
+    exfalso. inversion H; subst re. destruct F as [F1 F2]. destruct Hok; contradiction.
+Qed.
+
 (* ---------- non-vacuity: concrete histories in which the clauses' hypotheses hold ---------- *)
 Open Scope N_scope.
 Definition d5 : rle := [(3, 5)].
@@ -277,3 +304,19 @@ Proof.
   eexists. split; [vm_compute; reflexivity|]. vm_compute.
   repeat split; try discriminate; [exists 0%N|exists 1%N]; reflexivity.
 Qed.
+
+(* ---------- non-vacuity for failed_install_leaves_nothing ---------- *)
+(* tract 1 is not served and a disk can allocate: the faulted Create is consumed and changes nothing;
+   a faulted two-source PullTract of tract 0 at version 3: the first source's doCreate is hit (the local
+   copy at version 2 is already deleted), the second source installs the complete copy *)
+Example ex_fault_create :
+  let s := run (init false) h1 in
+  reaches_open s 1 = true /\ create_f s 1 d5 0 0 (Some st_NoSpace) = (s, st_NoSpace).
+Proof. vm_compute. auto. Qed.
+Example ex_fault_pull :
+  let s := run (init false) h1 in
+  pull_tract_f s 0 [(E_OK, d5); (E_OK, d7)] 3%Z 1 (Some st_NoSpace) =
+  pull_tract s 0 [(st_NoSpace, []); (E_OK, d7)] 3%Z 1 /\
+  cur (fst (pull_tract_f s 0 [(E_OK, d5); (E_OK, d7)] 3%Z 1 (Some st_NoSpace))) 0 = Some (mkfile (Some 3%Z) d7) /\
+  cur (fst (pull_tract_f s 0 [(E_OK, d5)] 3%Z 1 (Some st_NoSpace))) 0 = None.
+Proof. vm_compute. auto. Qed.
